@@ -53,6 +53,13 @@ def oracle_shape(p):
         out.append("%s: %d psd values but frequencies() returns %d" % (tag, len(psd), len(f)))
     if np.iscomplexobj(psd) or not np.all(np.isfinite(psd)):
         out.append("%s: psd is not real and finite" % tag)
+    for sd in ("onesided", "twosided", "centerdc"):
+        if sd == "onesided" and np.iscomplexobj(x):
+            continue
+        fl = len(o.frequencies(sd))
+        ex = nfft if sd != "onesided" else C.expected_len(True, nfft)
+        if fl != ex:
+            out.append("%s: frequencies('%s') has %d entries, expected %d (sampling=%g)" % (tag, sd, fl, ex, p["fs"]))
     if len(f) == L and rel(f, np.arange(L) * p["fs"] / nfft) > 1e-12:
         out.append("%s: frequencies() is not k*sampling/NFFT" % tag)
     return out
@@ -169,9 +176,12 @@ def gen(rng, nrng, tier):
         nfft = [None, "nextpow2", 64, 65, 2 * N, 2 * N + 1, 97][(i // 2) % 7]
         if isinstance(nfft, int) and nfft < N:
             nfft = N + (i % 2)
-        yield ("glue", {"cls": cls, "x": x, "nfft": nfft, "fs": [1.0, 2.0, 1000.0][i % 3]})
-    for n in list(range(1, 40)) + [64, 127, 128]:
-        yield ("axis", {"n": n, "fs": [1.0, 3.0][n % 2]})
+        yield ("glue", {"cls": cls, "x": x, "nfft": nfft, "fs": [1.0, 2.0, 1000.0, 250.0, 44100.0][i % 5]})
+    # the axes for every NFFT up to 200 (and a few larger) at "round" and awkward sampling rates: n*df is computed in floating point
+    rates = [1.0, 3.0, 100.0, 250.0, 1000.0, 8000.0, 44100.0, 0.1, 1e-2, 1e5]
+    for n in list(range(1, 201)) + [255, 256, 257, 1000, 1024, 4096]:
+        for fs in (rates if tier == "thorough" else [rates[(n + j) % len(rates)] for j in range(3)]):
+            yield ("axis", {"n": n, "fs": fs})
     t = 112 if tier == "quick" else 1700
     for i in range(t):
         cls = C.CLASSES[i % len(C.CLASSES)]
